@@ -284,7 +284,7 @@ def cl_post(c):
     if not heads:
         return z3.BoolVal(False)
     tail = [e for e in t[heads[-1]:] if e[0] in ('res-append', 'clump-append', 'new-list')]
-    cur = c.st.env.get('clump')
+    cur = c.st.env['clump']
     r = c.resultv
     is_res = r.k == 'ref' and r.cls == 'CBuf' and r.extra.get('res')
     if cur is None or cur.k != 'ref':
